@@ -77,14 +77,14 @@ func (m c13mon) Check(s *sim.Sim, st *sim.Step) []*sim.Violation {
 		case "TOTPSecretKey":
 			if d.New != "" { // enable / re-key
 				sec := rec.SessIn["totp_secret"]
-				ok := wellFormed && route == "POST /2fa/totp/confirm" && sec != "" && d.New == sec && sim.TOTPCodes(sec)[a.Secret]
+				ok := wellFormed && route == "POST /2fa/totp/confirm" && sec != "" && d.New == sec && sim.TOTPOK(sec, a.Secret)
 				if !ok {
 					vs = append(vs, vio("C13", "totp-enabled-without-proof|"+route+"|"+a.Resolved, "TOTP secret of %q set by %s without a valid code for the enrolment secret of this session (class %s)", d.PID, route, a.Resolved))
 				} else {
 					m.stats.Count("totp-enabled")
 				}
 			} else { // disable
-				ok := wellFormed && route == "POST /2fa/totp/remove" && ((a.Secret2 == "" && u != nil && sim.TOTPCodes(u.TOTPSecretKey)[a.Secret]) || liveRecovery(s, d.PID, a.Secret2))
+				ok := wellFormed && route == "POST /2fa/totp/remove" && ((a.Secret2 == "" && u != nil && sim.TOTPOK(u.TOTPSecretKey, a.Secret)) || liveRecovery(s, d.PID, a.Secret2))
 				if !ok {
 					vs = append(vs, vio("C13", "totp-disabled-without-proof|"+route+"|"+a.Resolved, "TOTP of %q disabled by %s without a current code or unused recovery code (class %s)", d.PID, route, a.Resolved))
 				} else {
@@ -115,7 +115,7 @@ func (m c13mon) Check(s *sim.Sim, st *sim.Step) []*sim.Violation {
 				switch route {
 				case "POST /2fa/totp/confirm":
 					sec := rec.SessIn["totp_secret"]
-					enrol = sec != "" && after.TOTPSecretKey == sec && sim.TOTPCodes(sec)[a.Secret]
+					enrol = sec != "" && after.TOTPSecretKey == sec && sim.TOTPOK(sec, a.Secret)
 				case "POST /2fa/sms/confirm":
 					num := rec.SessIn["sms_number"]
 					enrol = num != "" && after.SMSPhone == num && s.SMSSentTo(num, a.Secret)
